@@ -233,6 +233,15 @@ where
         self
     }
 
+    /// Verification hook: choose the compression the flushers encode entries with.
+    ///
+    /// Only available with the `verif` feature.
+    #[cfg(feature = "verif")]
+    pub fn with_compression(mut self, compression: Compression) -> Self {
+        self.compression = compression;
+        self
+    }
+
     /// Set the blob index size for each blob.
     ///
     /// A larger blob index size can hold more blob entries, but it will also increase the io size of each blob part
